@@ -6,6 +6,7 @@ import (
 	"os"
 	"strconv"
 
+	"github.com/HobbyOSs/gosk/internal/ast"
 	"github.com/HobbyOSs/gosk/internal/frontend"
 	"github.com/HobbyOSs/gosk/internal/gen"
 	"github.com/HobbyOSs/gosk/internal/zzverif/vrt"
@@ -42,6 +43,120 @@ func Assemble(src string, tag string) (out []byte, outcome string) {
 }
 
 var LastParseError string
+
+// AssembleT assembles a program given as template text plus substitutions:
+// the template (all literals concrete) is parsed by the real parser — once
+// per cell under the engine — and the placeholder NumberFactors of the tree
+// are then replaced by the (possibly symbolic) values.
+func AssembleT(tmpl string, sb []Sub, tag string) (out []byte, outcome string) {
+	dst := vrt.TempFile(tag + ".out")
+	type parsed struct {
+		tree any
+		err  error
+		oc   string
+	}
+	p := vrt.Once("parse:"+tmpl, func() any {
+		var r parsed
+		r.oc = vrt.Try(func() {
+			r.tree, r.err = gen.Parse("", []byte(tmpl), gen.Entrypoint("Program"))
+		})
+		return &r
+	}).(*parsed)
+	if p.oc != "ok" {
+		return nil, p.oc
+	}
+	if p.err != nil {
+		LastParseError = p.err.Error()
+		return nil, "parse-error"
+	}
+	prog, ok := p.tree.(*ast.Program)
+	if !ok {
+		return nil, "parse-error"
+	}
+	left := substProgram(prog, sb)
+	if left != 0 {
+		return nil, "template-error"
+	}
+	outcome = vrt.Try(func() {
+		frontend.Exec(p.tree, dst)
+	})
+	if outcome != "ok" {
+		return nil, outcome
+	}
+	b, err := os.ReadFile(dst)
+	if err != nil {
+		return nil, "no-output"
+	}
+	return b, "ok"
+}
+
+// substProgram replaces placeholder literals; returns how many of sb were
+// NOT found exactly once.
+func substProgram(p *ast.Program, sb []Sub) int {
+	found := make([]int, len(sb))
+	var factor func(f ast.Factor)
+	factor = func(f ast.Factor) {
+		if n, ok := f.(*ast.NumberFactor); ok {
+			for i := range sb {
+				if n.Value == sb[i].Placeholder {
+					n.Value = int(sb[i].Val)
+					found[i]++
+					return
+				}
+			}
+		}
+	}
+	var exp func(e ast.Exp)
+	add := func(a *ast.AddExp) {
+		if a == nil {
+			return
+		}
+		exp(a)
+	}
+	exp = func(e ast.Exp) {
+		switch x := e.(type) {
+		case *ast.MemoryAddrExp:
+			add(x.Left)
+			add(x.Right)
+		case *ast.SegmentExp:
+			add(x.Left)
+			add(x.Right)
+		case *ast.AddExp:
+			if x.HeadExp != nil {
+				exp(x.HeadExp)
+			}
+			for _, t := range x.TailExps {
+				exp(t)
+			}
+		case *ast.MultExp:
+			if x.HeadExp != nil {
+				exp(x.HeadExp)
+			}
+			for _, t := range x.TailExps {
+				exp(t)
+			}
+		case *ast.ImmExp:
+			factor(x.Factor)
+		}
+	}
+	for _, st := range p.Statements {
+		switch x := st.(type) {
+		case *ast.MnemonicStmt:
+			for _, o := range x.Operands {
+				exp(o)
+			}
+		case *ast.DeclareStmt:
+			exp(x.Value)
+		}
+	}
+	bad := 0
+	for _, n := range found {
+		if n != 1 {
+			bad++
+		}
+	}
+	return bad
+}
 
 func hexOf(b []byte) string {
 	const d = "0123456789abcdef"
